@@ -276,7 +276,7 @@ func forEachOp(doc any, f func(path, method string, op obj)) {
 
 type mixinModel struct {
 	doc        obj
-	collisions []string // multiset of colliding keys (category:key)
+	collisions []string       // multiset of colliding keys (category:key)
 	origin     map[string]int // "path" -> index of the document that contributed it (0 = primary)
 }
 
